@@ -13,6 +13,8 @@
     derand <hex>            -> <hex>
     ibwt <origPtr> <hex>    -> ok <hex> | err bad-origptr
     unmtfrle2 <usedhex> <cap> <s,s,…>   -> ok <hex> | err <reason>
+    randtab                 -> the 512 entries of the randomisation table, comma separated
+    crctab                  -> the 256 entries of the CRC table, comma separated
   File commands (`handleIO`, need IO; NOT reachable through `handle`):
     decodef <path>          -> as decode
     decodesumf <path>       -> as decodesum
@@ -82,8 +84,8 @@ def doDecode (data : List UInt8) : String :=
   | .error e => errStr e
 
 def doDecodeSum (data : List UInt8) : String :=
-  match decodeFile data with
-  | .ok out => "ok " ++ toString out.length ++ " " ++ toString (crc32 out).toNat
+  match decodeFileArr data with
+  | .ok out => "ok " ++ toString out.size ++ " " ++ toString (crc32Arr out).toNat
   | .error e => errStr e
 
 def doInspect (data : List UInt8) : String :=
@@ -134,6 +136,8 @@ def handle (cmd : String) (args : List String) : Option String :=
          | .ok o => "ok " ++ hexEncode o.toList
          | .error e => errStr e)
       | _, _, _ => "bad-arg")
+  | "randtab", [] => some (",".intercalate (randTab.toList.map toString))
+  | "crctab", [] => some (",".intercalate (Gen.crcTable.toList.map fun x => toString x.toNat))
   | _, _ => none
 
 /-- File variants; `none` for commands it does not know. -/
